@@ -105,6 +105,10 @@ def plan(tier, seed):
         P.add("fft_long", inverse=bool(rngb.random() < 0.5), n=n, batch=int(pick(rngb, [0, 0, 3])),
               center=bool(rngb.random() < 0.7), norm=pick(rngb, ["ortho", "ortho", None]),
               dtype=pick(rngb, ["complex128", "complex64"]), timeout=900)
+    # one transform of more than 2**22 samples, not centred (the branch in which the caller's own
+    # complex array is handed to the FFT routine)
+    P.add("fft_long", inverse=bool(rngb.random() < 0.5), n=(1 << 22) + 6, batch=0, center=False,
+          norm=pick(rngb, ["ortho", None]), dtype="complex128", timeout=900)
     # directed: delta at every index of an odd axis, strict subset of axes
     nd = 0
     for n in ([3, 5, 7] if tier == "quick" else [3, 5, 7, 9, 11]):
